@@ -21,6 +21,7 @@ THEOREMS = [
     "C08_resume_now",
     "C08_no_recall_composite",
     "C08_composite_rerun_before",
+    "C08_clear_failed_suffices",
     "C08_resume_mid_partial",
     "C08_recovery_mid",
     "C08_resume_stale_partial",
@@ -1220,7 +1221,7 @@ def gen_case(rng, tier, force_kind=None, nested=None):
             case["dirty"] = []
     case["force_starters"] = []
     roots = [g for g in top_leaves if not any(top["slots"][str(g)])]
-    if kind == "recovery" and not is_nested and len(roots) >= 2 and rng.random() < 0.3:
+    if kind == "recovery" and not is_nested and len(roots) >= 2 and rng.random() < 0.4:
         # a starting node on the executor is still out when a LATER starting node fails locally
         order = list(roots)
         rng.shuffle(order)
